@@ -1,4 +1,4 @@
 Require Extraction.
 Require Import ExtrOcamlBasic.
-From LibaV Require Import C09.LinalgDefs.
-Extraction "C09/extracted/linalg_model.ml" runZ.
+From LibaV Require Import C09.LinalgDefs C09.LinalgWide.
+Extraction "C09/extracted/linalg_model.ml" runZ diag1NZ diag2NZ.
